@@ -102,6 +102,7 @@ func c09Walk(w *fw.Worker, i int, r *fw.Rand, g int) {
 	st := e.Model.Initial
 	enabled := !o.Delay
 	curPtr := e.D.View()
+	var trace []string
 	var expected []c09Exp
 	firstEnableTick := int64(-1)
 	enableSuccessTick := int64(-1)
@@ -125,6 +126,8 @@ func c09Walk(w *fw.Worker, i int, r *fw.Rand, g int) {
 				l = e.RandLayer(r, 0, 100)
 			}
 			res, rerr := c.report(ctx, 0, src, l, true)
+			trace = append(trace, fmt.Sprintf("%d:%c src=%d %s -> %d", k, op, src, l, res))
+			desc["trace"] = trace
 			ns := e.Model.Step(st, conc.In{Kind: conc.OpReport, Src: src, Layer: l, Blocking: true}, conc.Out{Res: res})
 			if len(ns) == 0 {
 				key := "update-accepted-although-verification-enabled"
@@ -166,8 +169,47 @@ func c09Walk(w *fw.Worker, i int, r *fw.Rand, g int) {
 			if firstEnableTick < 0 {
 				firstEnableTick = e.S.Tick()
 			}
+			if enabled && r.Chance(50) {
+				// a redundant EnableVerification while Verify would fail for a reason outside the config (an impure
+				// Verify): verification is already on, so the call must succeed and must not switch verification off
+				e.S.ForceVerifyErr(func(*conc.Cfg) error {
+					if e.S.MonInEnable() {
+						return errors.New("harness: transient failure outside the config")
+					}
+					return nil
+				})
+				cfg, ser, eerr := e.Enable(ctx, 0)
+				e.S.ForceVerifyErr(nil)
+				w.Count("enable_calls_judged", 1)
+				w.Count("redundant_enables_with_impure_verify", 1)
+				if eerr != nil || cfg != curPtr || ser != st.Serial {
+					w.Violation(i, "redundant-enable-not-a-noop-success", fmt.Sprintf("step %d: verification already enabled; EnableVerification returned err=%v cfg-is-current=%v serial=%d want %d; returned %+v view %+v cur %+v", k, eerr, cfg == curPtr, ser, st.Serial, conc.FPOf(cfg), conc.FPOf(e.D.View()), conc.FPOf(curPtr)), desc)
+					return
+				}
+				// verification must still be on: an invalid update has to be rejected
+				// reported by the LAST source so that no later source overrides the negative value: the stack is invalid for sure
+				bad := e.NewLayer()
+				bad.Set[0], bad.NegA = true, true
+				src := 1
+				res, _ := c.report(ctx, 0, src, bad, true)
+				trace = append(trace, fmt.Sprintf("%d:redundant-enable then bad src=%d %s -> %d", k, src, bad, res))
+				desc["trace"] = trace
+				ns := e.Model.Step(st, conc.In{Kind: conc.OpReport, Src: src, Layer: bad, Blocking: true}, conc.Out{Res: res})
+				if len(ns) == 0 {
+					w.Violation(i, "verification-switched-off-by-a-later-enable", fmt.Sprintf("step %d: after a redundant EnableVerification an invalid update %s was installed", k, bad), desc)
+					return
+				}
+				st = ns[0].(conc.State)
+				X := o.Delay && o.Suppress && !enabled
+				if !X {
+					expected = append(expected, c09Exp{"err", conc.FP{}, fmt.Sprintf("step %d rejection after redundant enable", k)})
+				}
+				continue
+			}
 			nVerBefore := len(e.S.VerifyLog())
 			cfg, ser, eerr := e.Enable(ctx, 0)
+			trace = append(trace, fmt.Sprintf("%d:E enabled-before=%v model-verifying=%v -> err=%v", k, enabled, st.Verifying, eerr))
+			desc["trace"] = trace
 			fp, _ := modelFP(e.Model, st.Cur)
 			w.Count("enable_calls_judged", 1)
 			vl := e.S.VerifyLog()[nVerBefore:]
